@@ -20,8 +20,8 @@
 EXTENDS GaussLib, DagLib, Json, IOUtils
 CONSTANTS MaxNum, MaxDen       \* magnitude guard on the joint covariance before it is inverted (32-bit integers)
 Pats == JsonDeserialize(IOEnv.INST_FILE)
-VARIABLES pi, E, out
-vars == <<pi, E, out>>
+VARIABLES pi, E, mdl, out
+vars == <<pi, E, mdl, out>>
 P == Pats[pi]
 N == SeqSet(P.nodes)
 EdgeSets(p) == IF p.mode = "all" THEN AllDAGs(SeqSet(p.nodes)) ELSE {SeqSet(p.edges)}
@@ -33,65 +33,71 @@ Pas(v) == OrdOf(P.nodes, PaOf(E, v))
 
 Init == /\ pi \in 1..Len(Pats)
         /\ E \in EdgeSets(Pats[pi])
+        /\ mdl = [built |-> FALSE]
         /\ out = [kind |-> "none"]
 
-DoJoint == /\ out.kind = "none"
-           /\ out' = [kind |-> "joint", mean |-> Mu, cov |-> Cov]
-           /\ UNCHANGED <<pi, E>>
+\* evaluate the structural equations once; the questions below read the result
+Build == /\ ~mdl.built
+         /\ mdl' = [built |-> TRUE, mu |-> Mu, cov |-> Cov]
+         /\ UNCHANGED <<pi, E, out>>
+
+DoJoint == /\ mdl.built /\ out.kind = "none"
+           /\ out' = [kind |-> "joint", mean |-> mdl.mu, cov |-> mdl.cov]
+           /\ UNCHANGED <<pi, E, mdl>>
 
 DoPredict ==
-    /\ out.kind = "none"
-    /\ LET cov == Cov
-           mu == Mu
+    /\ mdl.built /\ out.kind = "none"
+    /\ LET cov == mdl.cov
+           mu == mdl.mu
        IN /\ Small(cov, N, N, MaxNum, MaxDen)
           /\ \E A \in (SUBSET N) \ {{}, N} :
-                LET O == N \ A
-                    W == CondW(cov, A, OrdOf(P.nodes, O))
-                IN out' = [kind |-> "predict", missing |-> A,
-                           mean |-> [r \in 1..Len(P.rows) |-> CondMean(mu, W, A, O, P.rows[r])],
-                           cov |-> CondCov(cov, W, A, O)]
-    /\ UNCHANGED <<pi, E>>
+                LET O == N \ A IN
+                \E W \in {CondW(cov, A, OrdOf(P.nodes, O))} :          \* W = Sigma_AO Sigma_OO^-1, evaluated once
+                    out' = [kind |-> "predict", missing |-> A,
+                            mean |-> [r \in 1..Len(P.rows) |-> CondMean(mu, W, A, O, P.rows[r])],
+                            cov |-> CondCov(cov, W, A, O)]
+    /\ UNCHANGED <<pi, E, mdl>>
 
 LSQ(v) == LET ps == Pas(v)
               C == {One} \cup SeqSet(ps)
-              beta == Beta(P.data, v, ps)
-              rss == RSS(P.data, v, C, beta)
               n == Len(P.data)
-          IN [b0 |-> beta[One], coef |-> [p \in SeqSet(ps) |-> beta[p]], rss |-> rss,
-              var |-> QDiv(rss, QI(n - 1)),           \* sample variance of the residuals (the convention of the code: ddof = 1)
-              s2n |-> QDiv(rss, QI(n))]               \* maximum-likelihood variance (LinearGaussianCPD.fit returns its square root)
-DoFit == /\ out.kind = "none"
+          IN Bind(Beta(P.data, v, ps), LAMBDA beta :
+             Bind(RSS(P.data, v, C, beta), LAMBDA rss :
+                [b0 |-> beta[One], coef |-> [p \in SeqSet(ps) |-> beta[p]], rss |-> rss,
+                 var |-> QDiv(rss, QI(n - 1)),        \* sample variance of the residuals (the convention of the code: ddof = 1)
+                 s2n |-> QDiv(rss, QI(n))]))          \* maximum-likelihood variance (LinearGaussianCPD.fit returns its square root)
+DoFit == /\ mdl.built /\ out.kind = "none"
          /\ Len(P.data) >= 2
          /\ \A v \in N : FullRank(P.data, v, Pas(v))          \* the property quantifies over data of full column rank only
          /\ out' = [kind |-> "fit", n |-> Len(P.data), cpds |-> [v \in N |-> LSQ(v)]]
-         /\ UNCHANGED <<pi, E>>
+         /\ UNCHANGED <<pi, E, mdl>>
 
-Next == DoJoint \/ DoPredict \/ DoFit
+Next == Build \/ DoJoint \/ DoPredict \/ DoFit
 
 \* ------------------------------------------------------------------ design-level lemmas
 \* (I - B)(I + B + ... + B^(n-1)) = I
-LemNilpotentInverse == out.kind = "none" =>
+LemNilpotentInverse == (mdl.built /\ out.kind = "none") =>
     MMul(MMinus(MId(N), Bm, N, N), NilInv(N, Bm), N, N, N) = MId(N)
 \* recursive substitution = closed form (I-B)^-T b0
-LemMeanClosedForm == out.kind = "none" =>
-    Mu = MVec(MT(NilInv(N, Bm), N, N), P.b0, N, N)
+LemMeanClosedForm == (mdl.built /\ out.kind = "none") =>
+    mdl.mu = MVec(MT(NilInv(N, Bm), N, N), P.b0, N, N)
 \* positive variances give a symmetric positive-definite joint covariance
-LemCovSymPD == out.kind = "none" =>
-    LET cov == Cov IN Symmetric(cov, N) /\ (Small(cov, N, N, MaxNum, MaxDen) => PosDef(cov, P.nodes))
+LemCovSymPD == (mdl.built /\ out.kind = "none") =>
+    LET cov == mdl.cov IN Symmetric(cov, N) /\ (Small(cov, N, N, MaxNum, MaxDen) => PosDef(cov, P.nodes))
 \* the matrix formula equals the covariance obtained by substituting the structural equations recursively
-LemCovRecursive == out.kind = "none" =>
-    LET cov == Cov IN \A u, v \in N : CovRec(E, P.w, P.var, u, v) = cov[u][v]
+LemCovRecursive == (mdl.built /\ out.kind = "none") =>
+    LET cov == mdl.cov IN \A u, v \in N : CovRec(E, P.w, P.var, u, v) = cov[u][v]
 \* covariance times information matrix (I-B) Omega^-1 (I-B)^T is the identity
-LemPrecision == out.kind = "none" =>
-    MMul(Cov, PrecOf(N, Bm, P.var), N, N, N) = MId(N)
+LemPrecision == (mdl.built /\ out.kind = "none") =>
+    MMul(mdl.cov, PrecOf(N, Bm, P.var), N, N, N) = MId(N)
 \* conditioning through the covariance (Schur complement) = conditioning through the information matrix
 LemCondPrecision == out.kind = "predict" =>
     LET A == out.missing
         O == N \ A
         K == PrecOf(N, Bm, P.var)
-        KAAi == Inverse(MSub(K, A, A), OrdOf(P.nodes, A))
+        KAAi == MInv(MSub(K, A, A), OrdOf(P.nodes, A))
         G == MMul(KAAi, MSub(K, A, O), A, A, O)
-        mu == Mu
+        mu == mdl.mu
     IN /\ MMul(out.cov, MSub(K, A, A), A, A, A) = MId(A)
        /\ \A r \in 1..Len(P.rows) :
              out.mean[r] = [a \in A |-> QSub(mu[a], QSum(O, LAMBDA o : QMul(G[a][o], QSub(P.rows[r][o], mu[o]))))]
@@ -101,8 +107,8 @@ LemCondMarginal == out.kind = "predict" =>
     \A b \in out.missing : out.missing # {b} =>
         LET A2 == out.missing \ {b}
             O == N \ out.missing
-            W2 == CondW(Cov, A2, OrdOf(P.nodes, O))
-        IN MSub(out.cov, A2, A2) = CondCov(Cov, W2, A2, O)
+            W2 == CondW(mdl.cov, A2, OrdOf(P.nodes, O))
+        IN MSub(out.cov, A2, A2) = CondCov(mdl.cov, W2, A2, O)
 \* normal equations: the residual is orthogonal to every column of the design matrix
 LemNormalEquations == out.kind = "fit" =>
     \A v \in N : LET C == {One} \cup PaOf(E, v)
